@@ -18,6 +18,7 @@ mod vrlrun;
 mod vrlrun_c22;
 mod rng;
 mod sink;
+mod sweep;
 mod wire;
 
 use sink::Reply;
@@ -39,6 +40,7 @@ const EXECS: &[Exec] = &[
     c20::exec,
     c22::exec,
     c15::exec,
+    sweep::exec,
     c23::exec,
     c24::exec,
 ];
@@ -56,6 +58,8 @@ fn generate(prop: &str, sink: &mut sink::Sink, rng: &mut rng::Rng, n: u64) -> bo
         "C07" => lang::generate(sink, rng, n, false, Some("o.c07")),
         "C08" => lang::generate(sink, rng, n, false, Some("o.c08")),
         "C09" => lang::generate(sink, rng, n, false, Some("o.c09")),
+        "C04" => sweep::generate(sink, rng, n, "o.c04.fn"),
+        "C05" => sweep::generate(sink, rng, n, "o.c05.fn"),
         "C15" => c15::generate(sink, rng, n),
         "C16" => c17::generate_c16(sink, rng, n),
         "C17" => c17::generate(sink, rng, n),
@@ -82,6 +86,7 @@ fn main() {
     // panics are caught per case; keep stderr quiet
     std::panic::set_hook(Box::new(|_| {}));
     match args[1].as_str() {
+        "sweep-worker" => sweep::worker_main(),
         "gen" => {
             let prop = args[2].as_str();
             let seed: u64 = args[3].parse().expect("seed");
